@@ -80,7 +80,7 @@ def ord4_on_bodies(ctx, bodies):
             for (n1, b1, t1), (n2, b2, t2) in zip(steps, steps[1:]):
                 use = classify_result_use(body, du, t1)
                 key = '%s|%s<%s' % (fn, n1, n2)
-                if use['kind'] not in ('try', 'unwrap'):
+                if use['kind'] not in ('try', 'unwrap', 'match'):
                     ctx.violation('ORD-4', key, 'result of %s is not checked (%s) before %s'
                                   % (n1, use['kind'], n2), where(t1))
                     continue
@@ -107,7 +107,7 @@ def ord4_on_bodies(ctx, bodies):
             use = classify_result_use(body, du, rt)
             okb = common.blocks_assigning_ok_return(body)
             sb = use.get('success_block')
-            good = use['kind'] in ('try', 'unwrap') and sb is not None and okb and \
+            good = use['kind'] in ('try', 'unwrap', 'match') and sb is not None and okb and \
                 all(cfg.dominates(sb, b) for b in okb)
             ctx.check('ORD-4', '%s|ok-after-rename' % fn, good,
                       'every Ok(..) return is dominated by the success edge of rename '
@@ -170,10 +170,7 @@ def ord3_ack_after_durable(ctx):
             if not outcome or list(outcome.values())[0] != 'Some':
                 continue
             key = list(outcome.keys())[0]
-            if not key.startswith('local'):
-                continue
-            hl = int(key[5:])
-            if 'JoinHandle' not in (F.local_type(hl) or ''):
+            if 'JoinHandle' not in (common.KEY_TYPES.get((F.name, key)) or ''):
                 continue
             cfg = CFG(F, removed_edges=removed)
             okw = all(cfg.must_pass_before(r, jb) for r in rets if r in cfg.reachable())
@@ -213,6 +210,13 @@ def flush_functions(ctx):
 S = 'disk_store::storage::Storage::'
 
 
+def storage_some_worlds(F, worlds):
+    """Worlds in which the optional Storage is present (guard key = an Option<..Storage..>)."""
+    sel = [w for w in worlds if w[2] and list(w[2].values())[0] == 'Some' and
+           'disk_store::storage::Storage' in (common.KEY_TYPES.get((F.name, list(w[2].keys())[0])) or '')]
+    return sel or [worlds[0]]
+
+
 def ord5_flush_order(ctx):
     ctx.rule('ORD-5', 'flush order: partition files and compaction outputs are written before the '
                       'catalogue is persisted; deletions only after the catalogue', floor=4)
@@ -233,8 +237,7 @@ def ord5_flush_order(ctx):
         # compaction result loop: closures executed on a pool that (transitively) reach
         # Storage::prepare_compact
         loop_exits = compaction_collect_exits(ctx, F, du)
-        sel = [w for w in worlds if w[2] and list(w[2].values())[0] == 'Some'
-               and list(w[2].keys())[0].startswith('arg')] or [worlds[0]]
+        sel = storage_some_worlds(F, worlds)
         for (label, removed, outcome) in sel:
             cfg = CFG(F, removed_edges=removed)
             reach = cfg.reachable()
@@ -333,9 +336,11 @@ def flw4_cursor_values(ctx):
                       'Storage::unflushed_wal_ids (got place %s, derives=%s)' % (place, from_unflushed),
                       where(t))
             for (b2, t2) in dws:
-                r2, s2 = du.access_path(t2.args[1])
+                from mirlib.dataflow import typed_path
+                r2, s2 = typed_path(F, du, t2.args[1])
                 U2 = base_local(operand_place(t2.args[1]))
-                same = (r2 == root) or (U2 == U) or (r2[0] == 'local' and r2[1] == U)
+                same = (r2 == root) or (U2 == U) or (r2[0] == 'local' and r2[1] == U) or \
+                    (r2[0] == 'call' and root[0] == 'call' and r2[2] == root[2])
                 ctx.check('FLW-4', '%s|deleted-range-is-frozen-range' % fn,
                           same and not s2,
                           'delete_wal_segments receives the same range whose end was persisted',
@@ -391,6 +396,48 @@ def _derives_from_unflushed(P, F, org):
             if calls_matching(cb, lambda n: n.endswith('Storage::unflushed_wal_ids')):
                 return True
     return False
+
+
+# ------------------------------------------------------------------------------------ ORD-10
+def ord10_cursor_before_snapshot(ctx):
+    ctx.rule('ORD-10', 'the catalogue that is written contains the advanced cursor: the cursor is '
+                       'advanced before the catalogue is cloned / serialised for writing', floor=2)
+    P = ctx.P
+    sites = list(P.call_sites(lambda f: norm_callee(f).endswith('MetaStore::advance_earliest_unflushed_wal_id')))
+    ctx.require(sites, 'ORD-10: nobody advances the cursor')
+    for body, blk, t in sites:
+        cfg = CFG(body)
+        du = DefUse(body)
+        writes = calls_matching(body, lambda n: n in (S + 'write_metastore',) or
+                                n.endswith('MetaStore::serialize') or blobwriter_method(n + '') == 'store')
+        writes += [(b, tt) for (b, tt) in body.calls() if not b.cleanup and blobwriter_method(tt.func) == 'store']
+        if not writes:
+            ctx.violation('ORD-10', '%s|catalogue-written' % body.name,
+                          'the function that advances the cursor does not write the catalogue',
+                          where(t))
+            continue
+        for (wb, wt) in writes:
+            ctx.check('ORD-10', '%s|advance-before-write' % body.name,
+                      cfg.dominates(blk.id, wb.id) and not cfg.can_reach(wb.id, blk.id),
+                      'cursor is advanced before the catalogue is written (never after)', where(wt))
+            # the written snapshot is taken after the advance
+            for a in wt.args[1:2]:
+                org = du.origins(base_local(a))
+                clones = [(cb_, c) for (cb_, c) in org['calls'] if norm_callee(c.func).endswith('Clone>::clone')
+                          and 'MetaStore' in (c.func or '')]
+                for (cb_, c) in clones:
+                    ctx.check('ORD-10', '%s|advance-before-snapshot' % body.name,
+                              cfg.dominates(blk.id, cb_),
+                              'the catalogue snapshot that is written is cloned after the cursor '
+                              'was advanced: otherwise the file lists the new partitions with the '
+                              'old cursor and a crash before the log deletion replays rows twice',
+                              where(c))
+    # the argument of advance is the function's cursor parameter
+    for body, blk, t in sites:
+        du = DefUse(body)
+        org = du.origins(base_local(t.args[1]))
+        ctx.check('ORD-10', '%s|advance-uses-parameter' % body.name, 2 in org['args'] or bool(org['args'] - {1}),
+                  'the cursor parameter is what the catalogue is advanced to', where(t))
 
 
 # ------------------------------------------------------------------------------------ FLW-5
@@ -505,8 +552,7 @@ def flw14_nothing_to_delete_is_lost(ctx):
                       'the list given to delete_orphaned_partitions is filled from the values '
                       'received from the compaction jobs', where(t))
         # on every path from persist_metastore to return both deletes happen (Some world)
-        sel = [w for w in worlds if w[2] and list(w[2].values())[0] == 'Some'
-               and list(w[2].keys())[0].startswith('arg')] or [worlds[0]]
+        sel = storage_some_worlds(F, worlds)
         for (label, removed, outcome) in sel:
             cfg = CFG(F, removed_edges=removed)
             rets = set(cfg.return_blocks())
